@@ -14,7 +14,7 @@ from vlib import core
 from vlib.core import cz, cnat, cbool, copt, clist
 
 MANIFEST = dict(
-    text='Theorems (Coq, all inputs): the recursion guard, default frame limit, default depth and truncation marker of einfo.Traceback as translated from einfo.py on every run equal the model; BUILDING THE RECORD IS TOTAL: how every attribute of the stand-ins _Frame/_Code/Traceback is read from the live object (literal, obj.attr, obj.ns.get(k[,d]), obj.ns[k], try/except KeyError) is translated on every run, and executed on live frames whose f_globals/f_locals are arbitrary dicts (code run by exec/eval: no __name__, no __file__, no __loader__) these reads never raise and build the stand-in with the (file, name, line) triple verbatim, __file__ = live value or "__main__", __name__ = live value or None; Traceback(tb) on any non-empty live traceback returns a chain whose (file, name, line) part is the chain of the depth theorems, and a task raising a picklable exception through such frames yields ACK + one READY carrying the record; the stand-in chain has at most recursionlimit//8 + 3 nodes and is the first limit+2 live frames followed by the marker iff the live chain is longer; for every exception class that reproduces itself from its args and every n >= 1, n pickle round trips of an ExceptionInfo keep type, exception class, args, attributes, traceback text and tb chain, and nothing changes after the second; the same stated for picklable records only (every record along the chain is again picklable), an unpicklable record is never sent; COUNTERFACTUAL (switch value false = the tree before the repair of D20): MaybeEncodingError args are re-repr()ed on every round trip, for ever; the body of MaybeEncodingError.__reduce__ and of its rebuild function, as matched on this run, returns a constructed object unchanged; MAIN CLAUSE: a task raising a picklable exception (any class) yields ACK + exactly one READY(ok=False) carrying the record with type, wrapped exception, text and the copied traceback (<= limit+3 nodes), and for every k >= 1 the k-fold round trip of that record exists, is picklable and has exactly that type, class, args, attributes, text and chain; a task raising an unpicklable exception is answered by exactly one READY carrying the MaybeEncodingError record, which survives every k >= 1 round trips; a result whose READY cannot be sent yields exactly one READY carrying a MaybeEncodingError record and the worker loop continues; with a working pipe every accepted task gets exactly one READY. Correspondence: real exceptions x argument tuples x traceback depths 1..300 (thorough ..900 and RecursionError) x 1..5 pickle round trips, Traceback(max_frames=m), MaybeEncodingError(a, b), and the real Worker.workloop in-process over scripted requests with a really-pickling outq; the call chains run over ordinary functions and 14 unusual frame kinds (functions and module code run by exec/eval in fresh or odd globals, lambda, generator expression, generator, class body, under sorted(key=)/map, __traceback_hide__, raise-from and raise-in-handler chaining), with the live and stand-in frame namespaces compared (kind ns) and monitors for "building the record raised" and "a task outcome killed the worker".',
+    text='Theorems (Coq, all inputs): the recursion guard, default frame limit, default depth and truncation marker of einfo.Traceback as translated from einfo.py on every run equal the model; BUILDING THE RECORD IS TOTAL: how every attribute of the stand-ins _Frame/_Code/Traceback is read from the live object (literal, obj.attr, obj.ns.get(k[,d]), obj.ns[k], try/except KeyError) is translated on every run, and executed on live frames whose f_globals/f_locals are arbitrary dicts (code run by exec/eval: no __name__, no __file__, no __loader__) these reads never raise and build the stand-in with the (file, name, line) triple verbatim, __file__ = live value or "__main__", __name__ = live value or None; Traceback(tb) on any non-empty live traceback returns a chain whose (file, name, line) part is the chain of the depth theorems, and a task raising a picklable exception through such frames yields ACK + one READY carrying the record; the stand-in chain has at most recursionlimit//8 + 3 nodes and is the first limit+2 live frames followed by the marker iff the live chain is longer; for every exception class that reproduces itself from its args and every n >= 1, n pickle round trips of an ExceptionInfo keep type, exception class, args, attributes, traceback text and tb chain, and nothing changes after the second; the same stated for picklable records only (every record along the chain is again picklable), an unpicklable record is never sent; COUNTERFACTUAL (switch value false = the tree before the repair of D20): MaybeEncodingError args are re-repr()ed on every round trip, for ever; the body of MaybeEncodingError.__reduce__ and of its rebuild function, as matched on this run, returns a constructed object unchanged; MAIN CLAUSE: a task raising a picklable exception (any class) yields ACK + exactly one READY(ok=False) carrying the record with type, wrapped exception, text and the copied traceback (<= limit+3 nodes), and for every k >= 1 the k-fold round trip of that record exists, is picklable and has exactly that type, class, args, attributes, text and chain; a task raising an unpicklable exception is answered by exactly one READY carrying the MaybeEncodingError record, which survives every k >= 1 round trips; a result whose READY cannot be sent yields exactly one READY carrying a MaybeEncodingError record and the worker loop continues; with a working pipe every accepted task gets exactly one READY. Correspondence: real exceptions x argument tuples x traceback depths 1..300 (thorough ..900 and RecursionError) x 1..5 pickle round trips, Traceback(max_frames=m), MaybeEncodingError(a, b), and the real Worker.workloop in-process over scripted requests with a really-pickling outq; the call chains run over ordinary functions and 14 unusual frame kinds (functions and module code run by exec/eval in fresh or odd globals, lambda, generator expression, generator, class body, under sorted(key=)/map, __traceback_hide__, raise-from and raise-in-handler chaining), with the live and stand-in frame namespaces compared (kind ns) and monitors for "building the record raised" and "a task outcome killed the worker". KNOWN FINDING F-C12-2 (modelled, refuted, replayed on every run): the stand-in frames copy the raw values of __file__/__name__/__traceback_hide__, which are pickled with the record; C12_own_exception_delivered_refuted (a picklable exception raised through a frame whose hide marker does not pickle is answered by the MaybeEncodingError record), C12_own_exception_delivered_partial (delivered when all copied namespace values pickle), C12_namespace_value_reported_as_encoding_error; deterministic wl/nsput cases with such frames on every run, judged by a trace-only monitor (own type/args must reach the caller).',
     note='Trusted: Coq kernel; translate/kernels/einfo.py (structural matcher + pykernel expression translator); harness/einfo_driver.py; pickle and the traceback module themselves (the text is an oracle; "the standard module can format the stand-in tb" is validated on every case, not proved); repr() of non-str objects is an oracle, repr of str is modelled for ASCII code points; exception classes whose constructor does not reproduce the object from its args are outside the statement. All theorems Closed under the global context.',
     technique='Coq proof over translator-regenerated kernel + differential correspondence + Gallina monitor on implementation traces',
     ref='5.12',
@@ -27,6 +27,7 @@ Definition check_case := EInfo.check_both.'''
 
 MEE = 'billiard.pool.MaybeEncodingError'
 SIG_D20 = 'C12:maybe-encoding-error-args-unstable'
+SIG_NSVAL = 'C12:frame-namespace-value-makes-record-unpicklable'     # known finding F-C12-2
 
 PLAIN_CLASSES = ['ValueError', 'KeyError', 'RuntimeError', 'TypeError', 'ZeroDivisionError',
                  'AssertionError', 'LookupError', 'IndexError', 'StopIteration', 'ArithmeticError',
@@ -111,6 +112,25 @@ def ctab(strs):
     return clist(strs, cstr)
 
 
+def ns_unp(orc, dmf):
+    """repr of what pickling the record raises because of a namespace value of the copied frames (the
+    first dmf+2 live frames; per frame f_globals[__file__], f_globals[__name__], then the hide local),
+    None if they all pickle -- mirrors Model.EInfo.chain_pickle_err o copy_ltb, which CaseNsPut compares
+    with the real pickler on the same frame kinds"""
+    rank = {('g', '__file__'): 0, ('g', '__name__'): 1, ('l', '__traceback_hide__'): 2}
+    cand = sorted((idx, rank[(w, k)], err) for idx, w, k, err in orc.get('live_unp', [])
+                  if (w, k) in rank and idx < dmf + 2)
+    return cand[0][2] if cand else None
+
+
+def has_unp(j):
+    if isinstance(j, dict):
+        return 'u' in j or any(has_unp(v) for v in j.values())
+    if isinstance(j, list):
+        return any(has_unp(v) for v in j)
+    return False
+
+
 def to_coq(c, o):
     k = c['kind']
     sh = Share()
@@ -126,9 +146,10 @@ def to_coq(c, o):
                                           cdict(o['attrs']))
     if k == 'slots':
         return '(CaseSlots %s %s %s)' % (ctab(o['frame']), ctab(o['code']), ctab(o['tb']))
-    if k == 'ns':
+    if k in ('ns', 'nsput'):
         def cg(v):
-            return 'GNone' if v[0] == 'n' else '(%s (T_ %d))' % ('GStr' if v[0] == 's' else 'GOther', v[1])
+            return 'GNone' if v[0] == 'n' else '(%s (T_ %d))' % (
+                {'s': 'GStr', 'o': 'GOther', 'u': 'GUnp'}[v[0]], v[1])
 
         def cns(d):
             return sh(clist(d, lambda kv: '(T_ %d, %s)' % (kv[0], cg(kv[1]))))
@@ -136,8 +157,12 @@ def to_coq(c, o):
         def node(ctor):
             return lambda n: sh('(%s (mk_fr (T_ %d) (T_ %d) %s) %s %s)' % (ctor, n[0], n[1], cz(n[2]),
                                                                             cns(n[3]), cns(n[4])))
-        body = sh.wrap('CaseNS %s %s %s' % (cz(o['reclimit']), clist(o['live'], node('mk_lf')),
-                                             clist(o['chains'], lambda ch: sh(clist(ch, node('mk_sf'))))))
+        if k == 'nsput':
+            body = sh.wrap('CaseNsPut %s %s %s' % (cz(o['reclimit']), clist(o['live'], node('mk_lf')),
+                                                   'None' if o['err'] is None else '(Some (T_ %d))' % o['err']))
+        else:
+            body = sh.wrap('CaseNS %s %s %s' % (cz(o['reclimit']), clist(o['live'], node('mk_lf')),
+                                                clist(o['chains'], lambda ch: sh(clist(ch, node('mk_sf'))))))
         return '(let T_ := tab_get %s in %s)' % (ctab(o['strs']), body)
     # worker loop
     reqs = []
@@ -156,10 +181,24 @@ def to_coq(c, o):
             out = '(Raises (CPlain 0) (mk_exc (CPlain 0) [] []) [mk_fr [] [] 0] 0)'
         ptb = '(expand tab_ %s)' % crle(orc['ptb']) if orc.get('ptb') else '[mk_fr [] [] 0]'
         reqs.append('(RTask %s %s %s %s %s)' % (cz(r['job']), cz(r['i']), out, ptb, cz(orc.get('ptext', 0))))
+    # F-C12-2: the put of a raising task's READY fails by itself when a namespace value the stand-in
+    # frames copy does not pickle (Model.EInfo.env_ns); which value, and the repr of what pickling it
+    # raises, come from the driver's own look at the LIVE frames (not from the failed put)
+    scripted = list(c['env'])
+    for key, orc in o['oracle'].items():
+        r = ns_unp(orc, o['dmf'])
+        if r is not None:
+            r = o['strs'][r]
+            n = orc['put_n']
+            scripted += ['ok'] * (n + 1 - len(scripted))
+            if scripted[n] == 'ok':
+                scripted[n] = ['ns', r]
     env = []
-    for n, a in enumerate(c['env']):
+    for n, a in enumerate(scripted):
         if a == 'ok':
             env.append('PutOk')
+        elif a[0] == 'ns':
+            env.append('(PutExc %s)' % cstr(a[1]))
         elif a == 'base':
             env.append('PutBase')
         else:
@@ -387,6 +426,29 @@ BOUNDARY_FRAMES += [
     dict(kind='tb', m=1, pat=[[4, 1], [9, 1], [5, 2]], rounds=1)]
 
 
+# known finding F-C12-2, on every run: a task raising a picklable exception from / through a frame one of
+# whose copied namespace values does not pickle (18: hide local, 19: __file__ of exec globals, 20:
+# __name__ of exec globals), through the worker loop (followed by another task), and the record alone
+BOUNDARY_NSVAL = []
+for _f in (18, 19, 20):
+    BOUNDARY_NSVAL += [
+        dict(kind='wl', maxtasks=None, env=[], script=[
+            dict(job=80 + _f, i=0, spec=dict(exc=['ValueError', [{'s': 'mine'}, {'i': 7}], []], pat=[[_f, 1]])),
+            dict(job=90 + _f, i=1, spec=dict(ret={'i': 32}))]),
+        dict(kind='nsput', exc=['ValueError', [{'s': 'mine'}, {'i': 7}], []], pat=[[_f, 1]])]
+BOUNDARY_NSVAL += [
+    dict(kind='wl', maxtasks=None, env=[], script=[
+        dict(job=70, i=0, spec=dict(exc=['UserBase', [{'i': 1}], [['detail', {'s': 'd'}]]],
+                                    pat=[[0, 2], [19, 1], [4, 1], [18, 1], [3, 1]])),
+        dict(job=71, i=0, spec=dict(exc=['KeyError', [{'s': 'k'}], []], pat=[[2, 1]]))]),
+    dict(kind='nsput', exc=['KeyError', [{'s': 'k'}], []], pat=[[0, 1], [20, 1], [19, 1], [18, 1], [1, 1]]),
+    dict(kind='nsput', exc=['KeyError', [{'s': 'k'}], []], pat=[[4, 1], [14, 1], [8, 1]]),      # all pickle
+    # the unpicklable value sits in a frame beyond the limit: it is not copied, the record pickles
+    dict(kind='nsput', exc=['KeyError', [{'s': 'k'}], []], pat=[[0, 126], [18, 1]]),
+    dict(kind='wl', maxtasks=None, env=[], script=[
+        dict(job=72, i=0, spec=dict(exc=['KeyError', [{'s': 'k'}], []], pat=[[0, 126], [18, 1]]))])]
+
+
 def gen_cases(rng, n, thorough):
     cases = []
     for _ in range(n):
@@ -403,7 +465,7 @@ def gen_cases(rng, n, thorough):
             cases.append(gen_wl(rng))
     if thorough:
         cases += [dict(kind='rt', deep=True, rounds=r, proto=p) for r in (1, 5) for p in (2, 5)]
-    return cases + BOUNDARY + BOUNDARY_FRAMES
+    return cases + BOUNDARY + BOUNDARY_FRAMES + BOUNDARY_NSVAL
 
 
 # ---------------------------------------------------------------- judging
@@ -452,6 +514,37 @@ def judge(res, cases, outs, codes):
                 res.alarms.append(dict(signature='C12:text-does-not-name-raising-frame',
                                        what='ExceptionInfo.traceback does not name the raising frame on %s' % short(c),
                                        replay=rep))
+        if c['kind'] == 'wl':
+            # trace-only: the own exception of a task must reach the caller.  A task whose exception
+            # pickles, whose READY put was not scripted to fail, and which is answered by a
+            # MaybeEncodingError record instead of its own type/args
+            for r in c['script']:
+                if r is None or 'exc' not in r['spec']:
+                    continue
+                orc = o['oracle'].get('%d,%d' % (r['job'], r['i']), {})
+                le = orc.get('live_exc')
+                if not le or has_unp(le) or le['cls'] == MEE:
+                    continue
+                n = orc.get('put_n')
+                if n is not None and n < len(c['env']) and c['env'][n] != 'ok':
+                    continue
+                got = [m[4] for m in o['msgs'] if m[0] == 'info' and m[1] == r['job'] and m[2] == r['i']]
+                if got and got[0]['cls'] == MEE and got[0]['type'] == MEE:
+                    cause = ns_unp(orc, o['dmf'])
+                    if cause is not None:
+                        res.alarms.append(dict(
+                            signature=SIG_NSVAL,
+                            what='task raised %s%s (picklable) through a frame holding a namespace value that does not '
+                                 'pickle (%s): the caller is sent MaybeEncodingError%s instead (F-C12-2)'
+                                 % (le['cls'], json.dumps(le['args']), o['strs'][cause], json.dumps(got[0]['args'][:1])),
+                            replay=rep))
+                    else:
+                        res.alarms.append(dict(
+                            signature='C12:picklable-exception-reported-as-encoding-error',
+                            what='task raised %s%s (picklable, put not scripted to fail) but the caller is sent '
+                                 'MaybeEncodingError%s on %s' % (le['cls'], json.dumps(le['args']),
+                                                                 json.dumps(got[0]['args'][:1]), short(c)),
+                            replay=rep))
         if c['kind'] == 'wl' and o['ending'][0] == 'crash' and not c['env']:
             res.alarms.append(dict(signature='C12:task-outcome-kills-worker',
                                    what='no put was scripted to fail, yet Worker.workloop died with %s after %d messages on %s'
@@ -545,7 +638,7 @@ def correspond(res, n):
     codes = [(idxmap[i], code) for i, code in codes]
     judge(res, cases, outs, codes)
     # the expected finding D20 last, so that anything else is what gets reported first
-    res.alarms.sort(key=lambda a: a['signature'] == SIG_D20)
+    res.alarms.sort(key=lambda a: a['signature'] in (SIG_D20, SIG_NSVAL))
     # ... and "building the record raised" first: it is the cause of whatever else such a run shows
     res.alarms.sort(key=lambda a: a['signature'] != 'C12:record-construction-raises')
 
@@ -614,7 +707,10 @@ def run(res):
         'Model.EInfo.frame_slots / code_slots / tb_slots (validated against dir() of real objects on every run); the '
         'stand-in constructors are the reads matched statement by statement by the translator (any other statement '
         'shape is a translator error); namespace values of the stand-in that do not pickle make the record '
-        'unpicklable (outside "picklable")',
+        'unpicklable: known finding F-C12-2, modelled by Model.EInfo.env_ns / handle_task_ns (the READY put fails by '
+        'itself with the repr of what pickling the value raises); in wl cases which value fails is taken from the '
+        'driver\'s own pickling of the LIVE frames\' values (props ns_unp mirrors chain_pickle_err o copy_ltb, which '
+        'CaseNsPut compares with the real pickler on the record for the same frame kinds)',
         'repr() of anything but str/int/None/bool/tuple/list is an oracle; str code points ASCII (a few printable non-ASCII are exercised)',
         'exception classes whose constructor does not rebuild the object from .args (the statement says "picklable") are outside',
         'the worker is run in-process with synq=None and a scripted wait_for_job; put failures other than pickling are scripted by call index',
